@@ -13,4 +13,16 @@ import Properties.C02
 import Properties.C01V1
 import Properties.C01V2
 import Properties.C06V2
+import Properties.C06V1
+import Properties.C07V1
+import Properties.C07V2
+import Properties.C08V2
+import Properties.C11V2
 import Properties.C18
+-- TEMP(main, awaiting w-c15): import Properties.C15TracksV1
+import Properties.C15TracksV2
+import Properties.C15CratesV1
+-- TEMP(main, awaiting w-c15): import Properties.C15CratesV2
+import Properties.C08V1
+import Properties.C11V1
+import Properties.C17
